@@ -174,6 +174,11 @@ class Unit:
                 if not impls:
                     raise Undecided('impl %s not found in %s' % (e.header, e.file))
                 emit_text('impl ' + _impl_header_text(impls[0]['header']) + ' {')
+                for blk in impls:   # associated types / consts of the impl are copied too
+                    d1 = rf.depth[blk['body_open']] + 1
+                    for m_ in rf.code_finditer(r'(?m)^[ \t]*((?:pub\s+)?(?:type|const)\s+\w+[^;{]*;)', blk['body_open'], blk['end']):
+                        if rf.depth[m_.start(1)] == d1:
+                            emit_text('    ' + m_.group(1))
                 for m in e.methods:
                     found = None
                     for blk in impls:
@@ -228,6 +233,10 @@ class Unit:
         text = self._apply_rewrites(e, text)
         if e.kind != 'macro_rules':
             text = _widen_vis(text)
+        if e.kind == 'struct':
+            text = _pub_fields(text)
+        gm = re.search(r'\b(?:struct|enum)\s+' + re.escape(e.name) + r'\s*(<[^>{(;]*>)?', text)
+        e.generics = (gm.group(1) or '') if gm else ''
         keep, gen = _derive_plan(e, derives)
         if keep:
             attrs_out.append('#[derive(%s)]' % ', '.join(keep))
@@ -373,6 +382,13 @@ def _derive_plan(e, derives):
         return [], []
     mode = e.derive or 'assume'
     name = e.name
+    G = getattr(e, 'generics', '') or ''          # e.g. <'a, T: Foo>
+    args = ''
+    if G:
+        args = '<' + ', '.join(a.split(':')[0].strip() for a in G[1:-1].split(',')) + '>'
+    def I(trait, body):
+        return 'impl%s %s for %s%s %s' % (G, trait, name, args, body)
+    name_a = name + args
     keep, gen = [], []
     if mode == 'keep':
         keep = [d for d in derives if d in SUPPORTED_KEEP]
@@ -381,17 +397,17 @@ def _derive_plan(e, derives):
         rest = list(derives)
     for d in rest:
         if d == 'PartialEq':
-            gen.append('impl vstd::std_specs::cmp::PartialEqSpecImpl for %s { open spec fn obeys_eq_spec() -> bool { true } open spec fn eq_spec(&self, other: &%s) -> bool { *self == *other } }' % (name, name))
-            gen.append('impl PartialEq for %s { #[verifier::external_body] fn eq(&self, other: &Self) -> (r: bool) { unimplemented!() } }' % name)
+            gen.append(I('vstd::std_specs::cmp::PartialEqSpecImpl', '{ open spec fn obeys_eq_spec() -> bool { true } open spec fn eq_spec(&self, other: &%s) -> bool { *self == *other } }' % name_a))
+            gen.append(I('PartialEq', '{ #[verifier::external_body] fn eq(&self, other: &Self) -> (r: bool) { unimplemented!() } }'))
         elif d == 'Eq':
-            gen.append('impl Eq for %s {}' % name)
+            gen.append(I('Eq', '{}'))
         elif d == 'Clone':
-            gen.append('impl Clone for %s { #[verifier::external_body] fn clone(&self) -> (r: Self) ensures r == *self { unimplemented!() } }' % name)
+            gen.append(I('Clone', '{ #[verifier::external_body] fn clone(&self) -> (r: Self) ensures r == *self { unimplemented!() } }'))
         elif d == 'Copy':
-            gen.append('impl Copy for %s {}' % name)
+            gen.append(I('Copy', '{}'))
         elif d == 'Debug':
-            gen.append("impl vstd::std_specs::fmt::DebugSpecImpl for %s { open spec fn fmt_req(&self, f: &std::fmt::Formatter<'_>) -> bool { true } }" % name)
-            gen.append("impl std::fmt::Debug for %s { #[verifier::external_body] fn fmt(&self, f: &mut std::fmt::Formatter<'_>) -> std::fmt::Result { unimplemented!() } }" % name)
+            gen.append(I('vstd::std_specs::fmt::DebugSpecImpl', "{ open spec fn fmt_req(&self, f: &std::fmt::Formatter<'_>) -> bool { true } }"))
+            gen.append(I('std::fmt::Debug', "{ #[verifier::external_body] fn fmt(&self, f: &mut std::fmt::Formatter<'_>) -> std::fmt::Result { unimplemented!() } }"))
         elif d in ('Hash', 'BoolEnum', 'PartialOrd', 'Ord', 'Default'):
             pass  # dropped: not used by any verified body (extraction fails to type-check otherwise)
     return keep, gen
@@ -437,3 +453,32 @@ def twin_for_entry(e, sig_text):
         where = ' where ' + ' '.join(wm.group(1).split())
     return 'proof fn %s__vacuity%s(%s)%s\n    requires %s,\n    ensures false,\n{}' % (
         e.name, generics, ' '.join(params.split()), where, req)
+
+
+def _pub_fields(text):
+    """D5 for fields: every field of a copied struct becomes `pub` (specs must be able to name it)."""
+    m = re.match(r'((?:pub\s+)?struct\s+\w+\s*(?:<[^>{(;]*>)?\s*)\((.*)\)\s*;\s*$', text, re.S)
+    if m:   # tuple struct
+        parts, depth, cur = [], 0, ''
+        for ch in m.group(2):
+            if ch in '(<[':
+                depth += 1
+            elif ch in ')>]':
+                depth -= 1
+            if ch == ',' and depth == 0:
+                parts.append(cur)
+                cur = ''
+            else:
+                cur += ch
+        if cur.strip():
+            parts.append(cur)
+        parts = [p_ if re.match(r'\s*pub\b', p_) else ' pub ' + p_.strip() for p_ in parts]
+        return m.group(1) + '(' + ','.join(parts).strip() + ');'
+    out = []
+    depth = 0
+    for ln in text.split('\n'):
+        if depth == 1 and re.match(r'\s*(?!pub\b)(r#)?[a-z_]\w*\s*:', ln):
+            ln = re.sub(r'^(\s*)', r'\1pub ', ln, count=1)
+        depth += ln.split('//')[0].count('{') - ln.split('//')[0].count('}')
+        out.append(ln)
+    return '\n'.join(out)
